@@ -727,11 +727,11 @@ func genC18(ctx *fw.Ctx) []fw.Case {
 }
 
 func c18AllDomains() (map[string][]enumConst, error) {
-	d, err := enumDomain("/repo/ir/enum")
+	d, err := enumDomain(fw.Repo + "/ir/enum")
 	if err != nil {
 		return nil, err
 	}
-	d2, err := enumDomain("/repo/ir/types")
+	d2, err := enumDomain(fw.Repo + "/ir/types")
 	if err != nil {
 		return nil, err
 	}
